@@ -122,4 +122,751 @@ def targets():
     ]
 
 
-STAGES = [['C11_norm.v', 'C11_gate.v'], ['C11_routes.v'], ['C11.v']]
+STAGES = [['C11_norm.v', 'C11_gate.v'], ['C11_routes.v', 'C11_qdcm.v'], ['C11.v']]
+
+
+def pregen(ctx):
+    pass
+
+
+# ------------------------------------------------------------------------------------------
+# helpers
+# ------------------------------------------------------------------------------------------
+def cm_call(f, inp, who=None):
+    from vlib.core import call_outcome
+    r = call_outcome(f, inp)
+    if r[0] == 'raise':
+        return {'tag': f"{who or inp.get('entry', inp.get('route', f.__name__))}/raises-{r[1]}", 'observed': list(r[1:])}
+    return r[1]
+
+
+def _dir(rng):
+    v = rng.standard_normal(4)
+    return v / np.linalg.norm(v)
+
+
+def _rot(rng, region=None):
+    """a proper rotation matrix built independently of the package (from a unit quaternion)"""
+    q = cm.rand_unit_quat(rng) if region is None else region
+    return cm.Rspec(q)
+
+
+def nearest_rotation(Mx):
+    U, s, Vt = np.linalg.svd(Mx)
+    D = np.diag([1.0, 1.0, np.sign(np.linalg.det(U @ Vt))])
+    return U @ D @ Vt
+
+
+def vectors(rng, n, dim=4):
+    """finite non-zero vectors: the edge set, then direction on the sphere x norm 10^U(-100,100)"""
+    out = []
+    for k in range(dim):
+        e = np.zeros(dim); e[k] = 1.0
+        out += [('axis', e), ('axis-neg', -e), ('axis-1e-100', e * 1e-100), ('axis-1e100', e * 1e100)]
+    out.append(('ones', np.ones(dim)))
+    out.append(('ints', np.arange(1, dim + 1, dtype=float)))
+    out.append(('neg-zero-mix', np.array([1.0, -0.0, 0.0, -0.0][:dim])))
+    out.append(('denormal-component', np.array([1.0, 5e-324, 1e-310, 0.5][:dim])))
+    out.append(('norm-1e-100', _dir(rng)[:dim] / np.linalg.norm(_dir(rng)[:dim]) * 1e-100))
+    out.append(('norm-1e100', np.ones(dim) / math.sqrt(dim) * 1e100))
+    out.append(('mixed-magnitudes', np.array([1e-60, 1e-20, 1.0, 1e-90][:dim])))
+    while len(out) < n:
+        d = rng.standard_normal(dim); d /= np.linalg.norm(d)
+        out.append(('generic', d * 10.0 ** rng.uniform(-100, 100)))
+    return out
+
+
+# ------------------------------------------------------------------------------------------
+# correspondence
+# ------------------------------------------------------------------------------------------
+def _impl():
+    import ahrs
+    f = lambda x: np.array(x, dtype=float)
+    return {
+        'Q4': lambda c: np.asarray(ahrs.Quaternion(f([c[k] for k in Q]))),
+        'Q3': lambda c: np.asarray(ahrs.Quaternion(f([c[k] for k in Q[1:]]))),
+        'QA4': lambda c: np.asarray(ahrs.QuaternionArray(f([[c[k] for k in P], [c[k] for k in Q]]))),
+        'QA3': lambda c: np.asarray(ahrs.QuaternionArray(f([[c[k] for k in P[1:]], [c[k] for k in Q[1:]]]))),
+        'QA4_1': lambda c: np.asarray(ahrs.QuaternionArray(f([[c[k] for k in Q]]))),
+        'add': lambda c: np.asarray(ahrs.Quaternion(f([c[k] for k in P])) + ahrs.Quaternion(f([c[k] for k in Q]))),
+        'sub': lambda c: np.asarray(ahrs.Quaternion(f([c[k] for k in P])) - ahrs.Quaternion(f([c[k] for k in Q]))),
+        'random': lambda c: random_attitude_with([c[k] for k in U]),
+        'rotate_by': lambda c: ahrs.QuaternionArray(f([[c[k] for k in P]])).rotate_by(f([c[k] for k in Q])),
+        'DCM_matrix': lambda c: np.asarray(ahrs.DCM(f([[c[n] for n in r] for r in M]))),
+        'DCM_q': lambda c: np.asarray(ahrs.DCM(q=f([c[k] for k in Q]))),
+        'Q_dcm': lambda c: np.asarray(ahrs.Quaternion(dcm=f([[c[n] for n in r] for r in M]))),
+        'DCM_axang_c': lambda c: np.asarray(ahrs.DCM(axang=(f([c[k] for k in K]), ANG_C))),
+    }
+
+
+def _matrix_cases(rng, n):
+    """3x3 matrices: exact rotations, perturbed by <= 1e-12 (accepted), the rejected families, NaN entries,
+    and matrices straddling the gate's own thresholds"""
+    out = []
+    qs = [q for _, q in cm.quats(rng, n)]
+    for i, q in enumerate(qs):
+        R = cm.Rspec(q)
+        out.append(R)
+        out.append(R + rng.uniform(-1e-12, 1e-12, (3, 3)))
+        k = i % 8
+        if k == 0:
+            out.append(R @ np.diag([1.0, 1.0, -1.0]))
+        elif k == 1:
+            out.append(R * (1 + rng.choice([-1, 1]) * 10.0 ** rng.uniform(-4, 0)))
+        elif k == 2:
+            S = np.eye(3); S[0, 1] = rng.choice([-1, 1]) * 10.0 ** rng.uniform(-4, 0); out.append(R @ S)
+        elif k == 3:
+            Mn = R.copy(); Mn[rng.integers(3), rng.integers(3)] = np.nan; out.append(Mn)
+        elif k == 4:
+            out.append(R * (1 + rng.choice([-1, 1]) * 10.0 ** rng.uniform(-7, -5)))    # around the thresholds
+        elif k == 5:
+            out.append(R + rng.standard_normal((3, 3)) * 10.0 ** rng.uniform(-9, -6))
+        elif k == 6:
+            out.append(-R)
+        else:
+            out.append(rng.standard_normal((3, 3)))
+    return out
+
+
+def correspondence(ctx):
+    I = _impl()
+    rng = ctx.rng
+    n = ctx.n(40, 400)
+    vs4 = [v for _, v in vectors(rng, n, 4) if 1e-101 <= np.linalg.norm(v) <= 1e3]
+    vs4 += [cm.rand_unit_quat(rng) * 10.0 ** rng.uniform(-3, 3) for _ in range(n)]
+    vs3 = [v[:3] for v in vs4 if np.linalg.norm(v[:3]) > 0]
+    z4 = np.zeros(4)
+    ctx.correspond('C11_Q4', [cm.d(Q, v) for v in vs4] + [cm.d(Q, z4), cm.d(Q, [-0.0, 0.0, 0.0, -0.0])], I['Q4'])
+    ctx.correspond('C11_Q3', [cm.d(Q[1:], v) for v in vs3] + [cm.d(Q[1:], z4[:3])], I['Q3'])
+    pairs = [{**cm.d(P, vs4[i]), **cm.d(Q, vs4[(7 * i + 3) % len(vs4)])} for i in range(len(vs4))]
+    zr = [{**cm.d(P, z4), **cm.d(Q, vs4[0])}, {**cm.d(P, vs4[1]), **cm.d(Q, z4)}, {**cm.d(P, z4), **cm.d(Q, z4)}]
+    ctx.correspond('C11_QA4', pairs + zr, I['QA4'])
+    ctx.correspond('C11_QA4_1', [cm.d(Q, v) for v in vs4[:n]] + [cm.d(Q, z4)], I['QA4_1'])
+    p3 = [{**cm.d(P[1:], vs3[i]), **cm.d(Q[1:], vs3[(5 * i + 1) % len(vs3)])} for i in range(len(vs3))]
+    ctx.correspond('C11_QA3', p3 + [{**cm.d(P[1:], z4[:3]), **cm.d(Q[1:], vs3[0])}], I['QA3'])
+    # sums / differences: generic pairs, near-cancelling pairs, exactly cancelling pairs
+    mod = [v for v in vs4 if 1e-3 <= np.linalg.norm(v) <= 1e3]
+    ad = [{**cm.d(P, mod[i]), **cm.d(Q, mod[(3 * i + 1) % len(mod)])} for i in range(len(mod))]
+    canc = [{**cm.d(P, v), **cm.d(Q, v)} for v in mod[:6]] + [{**cm.d(P, v), **cm.d(Q, -v)} for v in mod[:6]]
+    ctx.correspond('C11_add', ad + canc + zr[:2], I['add'], tol_ulp=256)
+    ctx.correspond('C11_sub', ad + canc + zr[:2], I['sub'], tol_ulp=256)
+    us = [rng.uniform(0, 1, 3) for _ in range(n)] + [np.array(u, float) for u in
+                                                      ([0, 0, 0], [1, 0, 0], [0.5, 0.25, 0.75], [1, 1, 1], [0, 0.5, 0.5], [1e-300, 0.1, 0.9])]
+    ctx.correspond('C11_random', [cm.d(U, u) for u in us], I['random'], tol_ulp=256)
+    ctx.correspond('C11_rotate_by', ad, I['rotate_by'], tol_ulp=256)
+    ctx.correspond('C11_DCM_q', [cm.d(Q, v) for v in mod] + [cm.d(Q, z4)], I['DCM_q'])
+    mats = _matrix_cases(rng, ctx.n(24, 240))
+    mc = [cm.d(MF, Mx.reshape(-1)) for Mx in mats]
+    ctx.correspond('C11_DCM_matrix', mc, I['DCM_matrix'])
+    ctx.correspond('C11_Q_dcm', mc, I['Q_dcm'], tol_ulp=1024, up_to_sign=False)
+    axes = [v[:3] for v in mod] + [np.zeros(3), np.array([0.0, 0.0, 2.0]), np.array([1e-100, 0.0, 0.0])]
+    ctx.correspond('C11_DCM_axang_c', [cm.d(K, a) for a in axes], I['DCM_axang_c'])
+    _corr_routes(ctx)
+    _corr_decision(ctx)
+
+
+# ---- hand model of the angle routes, run in PrimFloat ------------------------------------------------
+PRE_F = ['From Coq Require Import List. From Coq Require Import Uint63. From Coq Require Import PrimFloat.',
+         'From AhrsModel Require Import C11_routes.', 'Import ListNotations.', 'Open Scope float_scope.',
+         'Definition Fxyz := dcm_xyz float 0 1 PrimFloat.add PrimFloat.mul PrimFloat.opp.',
+         'Definition Frs := rot_seq float 0 1 PrimFloat.add PrimFloat.mul PrimFloat.opp.',
+         'Definition Frod := rodrigues float 0 1 PrimFloat.add PrimFloat.sub PrimFloat.mul PrimFloat.div PrimFloat.opp PrimFloat.sqrt.']
+
+
+def _hx(x):
+    from pysym import emit
+    x = float(x)
+    if x != x:
+        return 'nan'
+    return emit._hexf(x)
+
+
+def _cs(ax, ang, degrees=False):
+    """(c, s) the implementation's `rotation` uses for this angle: (cos, sin) as numpy computes them, or (1, 0)
+    when the public function dcm.rotation takes one of its early exits (returns exactly the identity)"""
+    from ahrs.common.dcm import rotation
+    Rm = rotation(ax, ang, degrees=degrees)
+    if np.array_equal(Rm, np.eye(3)):
+        return 1.0, 0.0
+    a = float(ang) * (np.pi / 180 if degrees else 1.0)
+    if degrees:
+        from ahrs.common.constants import DEG2RAD
+        a = float(ang) * DEG2RAD
+    return float(np.cos(a)), float(np.sin(a))
+
+
+def _parse_floats(s):
+    body = s[s.index('[') + 1:s.rindex(']')]
+    out = []
+    for t in body.split(';'):
+        t = t.strip().replace('%float', '').strip('() ')
+        if not t:
+            continue
+        out.append(float('nan') if t == 'nan' else float('inf') if t == 'infinity' else float('-inf') if t == 'neg_infinity'
+                   else float.fromhex(t) if 'x' in t else float(t))
+    return out
+
+
+def angle_sets(rng, n):
+    out = [(0.0, 0.0, 0.0), (math.pi / 2, 0.0, 0.0), (0.0, math.pi, 0.0), (0.0, 0.0, -math.pi / 2), (2 * math.pi, 1.0, -1.0),
+           (math.pi, math.pi, math.pi), (1e-9, -1e-9, 1e-7), (90.0, 180.0, 360.0), (720.0, -45.0, 30.0), (10.0, -20.0, 30.0),
+           (1e-300, 5.0, -7.0), (3.0, 4.0, 1e6)]
+    while len(out) < n:
+        out.append(tuple(float(x) for x in rng.uniform(-4 * math.pi, 4 * math.pi, 3)))
+    return out
+
+
+def _corr_routes(ctx):
+    import ahrs
+    rng = ctx.rng
+    n = ctx.n(40, 300)
+    exprs, calls = [], []
+    for (a, b, c) in angle_sets(rng, n):
+        for deg in (False, True):
+            cs = [_cs('x', a, deg), _cs('y', b, deg), _cs('z', c, deg)]
+            exprs.append('Fxyz ' + ' '.join(f"{_hx(u)} {_hx(w)}" for u, w in cs))
+            calls.append((('xyz', a, b, c, deg), (lambda a=a, b=b, c=c, deg=deg: np.asarray(ahrs.DCM(x=a, y=b, z=c, degrees=deg)))))
+        cs = [_cs('z', a), _cs('y', b), _cs('x', c)]
+        exprs.append('Frs [' + '; '.join(f"({ax}, {_hx(u)}, {_hx(w)})" for ax, (u, w) in zip(('AZ', 'AY', 'AX'), cs)) + ']')
+        calls.append((('rpy', a, b, c), (lambda a=a, b=b, c=c: np.asarray(ahrs.DCM(rpy=[a, b, c])))))
+    seqs = ['z', 'x', 'zxz', 'xyz', 'ZYX', 'yxy', 'zyzx', 'xxyyzz', 'Xz']
+    for i in range(n):
+        seq = seqs[i % len(seqs)]
+        angs = [float(x) for x in rng.uniform(-7, 7, len(seq))]
+        if i % 5 == 0:
+            angs[0] = 0.0
+        cs = [_cs(ch, t) for ch, t in zip(seq, angs)]
+        exprs.append('Frs [' + '; '.join(f"(A{ch.upper()}, {_hx(u)}, {_hx(w)})" for ch, (u, w) in zip(seq, cs)) + ']')
+        calls.append((('euler', seq, angs), (lambda seq=seq, angs=angs: np.asarray(ahrs.DCM(euler=(seq, angs))))))
+    for i in range(n):
+        ax = rng.standard_normal(3) * 10.0 ** rng.uniform(-3, 3)
+        if i % 7 == 0:
+            ax = np.eye(3)[i % 3] * (2.0 if i % 2 else 1.0)
+        t = float(rng.uniform(-7, 7)) if i % 6 else [0.0, math.pi, -math.pi, 1e-9, 2 * math.pi, 100.0][(i // 6) % 6]
+        exprs.append('Frod ' + ' '.join(_hx(x) for x in ax) + f" {_hx(np.cos(t))} {_hx(np.sin(t))}")
+        calls.append((('axang', ax.tolist(), t), (lambda ax=ax, t=t: np.asarray(ahrs.DCM(axang=(ax.copy(), t))))))
+    outs = ctx.coq_eval('C11_routes_model', PRE_F, exprs)
+    if outs is None:
+        return
+    from vlib.core import call_outcome
+    worst = 0.0
+    for (key, f), o in zip(calls, outs):
+        mv = np.array(_parse_floats(o))
+        r = call_outcome(f)
+        if r[0] == 'raise':
+            ctx.disagree('C11_routes_model', key, mv, list(r[1:]), 'model returns a matrix, implementation raises')
+            continue
+        iv = np.asarray(r[1], float).reshape(-1)
+        d = float(np.max(np.abs(mv - iv))) if mv.shape == iv.shape else float('inf')
+        worst = max(worst, d)
+        if not d <= 64 * 2.0 ** -52:
+            ctx.disagree('C11_routes_model', key, mv, iv, f'hand model and implementation differ by {d:.3g}')
+        else:
+            ctx.agree('C11_routes_model')
+    st = ctx.corr_stats['C11_routes_model']
+    st['max_abs'] = worst
+    ctx.say(f"[corr] C11_routes_model (hand model of rotation/rot_seq/Rodrigues in PrimFloat): {st['cases']} cases, "
+            f"{st['disagree']} disagreements, max |diff| {worst:.3g}")
+
+
+# ---- decision model: exhaustive grid -----------------------------------------------------------------
+G_SHAPES = [(), (0,), (1,), (3,), (4,), (5,), (9,), (0, 4), (1, 3), (1, 4), (2, 3), (2, 4), (3, 3), (4, 4), (4, 3), (3, 4), (5, 4),
+            (7, 3), (1, 5), (2, 2), (1, 3, 3), (2, 3, 3), (4, 3, 3), (1, 1, 4), (2, 2, 4), (1, 4, 4), (1, 1, 3, 3)]
+G_DT = {'float64': 'F64', 'int64': 'I64', 'float32': 'F32', 'int32': 'I32', 'bool': 'Bool', 'complex128': 'C128', 'str': 'Str',
+        'object': 'Obj'}
+G_CONT = {'ndarray': 'Nd', 'list': 'Lst', 'tuple': 'Tup'}
+G_CONTENT = {'generic': 'Generic', 'zero': 'Zero', 'zerorow': 'ZeroRow', 'nan': 'NaN', 'reflect': 'Reflect', 'scaled': 'Scaled'}
+G_ROT = np.array([[0.0, -1.0, 0.0], [1.0, 0.0, 0.0], [0.0, 0.0, 1.0]])
+G_SCALARS = {'IntPos': [1, 3, 4], 'IntNonPos': [0, -2], 'BoolT': [True], 'BoolF': [False], 'FloatS': [2.5, 0.0, float('nan')],
+             'StrS': ['abcd', ''], 'NoneS': [None]}
+
+
+def grid_build(shape, dt, cont, content):
+    """the concrete argument of one grid cell, or None when the cell does not exist"""
+    n = int(np.prod(shape)) if shape else 1
+    if cont != 'ndarray' and (shape == () or dt in ('float32', 'int32') or (n == 0 and len(shape) > 1)):
+        return None                     # a bare scalar is another container class; lists carry python numbers;
+                                        # an empty nested list does not carry its shape
+    if content == 'zero':
+        if n == 0:
+            return None
+        a = np.zeros(shape)
+    else:
+        a = (np.arange(n) % 3 + 1.0).reshape(shape)       # small positive integers: representable in every dtype
+        if len(shape) >= 2 and shape[-2:] == (3, 3):
+            a = np.broadcast_to(G_ROT, shape).copy()
+            if content == 'reflect':
+                a[..., 2, 2] = -1
+            if content == 'scaled':
+                a = a * 2
+        elif content in ('reflect', 'scaled'):
+            return None
+        if content == 'zerorow':
+            if len(shape) != 2 or shape[0] < 1 or n == 0:
+                return None
+            a[-1] = 0
+        if content == 'nan':
+            if dt not in ('float64', 'float32', 'complex128') or n == 0:
+                return None
+            a = a.astype(float)
+            a.reshape(-1)[0] = np.nan
+    if dt == 'str':
+        a = a.astype(int).astype(str)
+    elif dt == 'object':
+        if n == 0:
+            return None
+        a = a.astype(object)
+        a.reshape(-1)[-1] = None
+    else:
+        a = a.astype(dt)
+    if cont == 'ndarray':
+        return a
+    l = a.tolist()
+    if cont == 'tuple':
+        l = tuple(l)
+    return l
+
+
+def grid_outcome(ctor, x):
+    import ahrs, warnings
+    f = {'Quat': ahrs.Quaternion, 'QArr': ahrs.QuaternionArray, 'Dcm': ahrs.DCM}[ctor]
+    try:
+        with np.errstate(all='ignore'), warnings.catch_warnings():
+            warnings.simplefilter('ignore')
+            r = f(x) if x is not None else f()
+        r = np.asarray(r)
+        if r.dtype != np.dtype(float) or not np.all(np.isfinite(r)):
+            return 'Ok-but-not-finite-float64'
+        if ctor == 'Dcm':
+            rr = r.reshape(-1, 3, 3)
+            if any(cm.maxabs(m @ m.T, np.eye(3)) > 1e-5 or abs(np.linalg.det(m) - 1) > 1e-5 for m in rr):
+                return 'Ok-but-not-a-rotation'
+        elif r.size and cm.maxabs(np.linalg.norm(r.reshape(-1, 4), axis=1), 1.0) > 1e-12:
+            return 'Ok-but-not-unit'
+        return 'Ok'
+    except Exception as e:                                    # noqa: the class of the exception is the observation
+        if isinstance(e, TypeError):
+            return 'TErr'
+        if isinstance(e, ValueError):
+            return 'VErr'
+        return 'raises-' + type(e).__name__
+
+
+def grid_cells():
+    cells = []
+    for ctor in ('Quat', 'QArr', 'Dcm'):
+        for cont, dt, shape, content in itertools.product(G_CONT, G_DT, G_SHAPES, G_CONTENT):
+            x = grid_build(shape, dt, cont, content)
+            if x is None:
+                continue
+            coq = f"({ctor}, {G_CONT[cont]}, {G_DT[dt]}, [{'; '.join(str(k) + '%nat' for k in shape)}], {G_CONTENT[content]})"
+            cells.append(((ctor, cont, dt, list(shape), content), coq, x))
+        for k, vals in G_SCALARS.items():
+            for v in vals:
+                cells.append(((ctor, k, repr(v)), f"({ctor}, {k}, F64, [], Generic)", v))
+    return cells
+
+
+def _corr_decision(ctx):
+    cells = grid_cells()
+    pre = ['From Coq Require Import List.', 'From AhrsModel Require Import C11_decision.', 'Import ListNotations.']
+    expr = 'map (fun c => match c with (a, b, d, s, x) => decide a b d s x end) [' + '; '.join(c[1] for c in cells) + ']'
+    outs = ctx.coq_eval('C11_decision', pre, [expr])
+    if outs is None:
+        return
+    model = [t.strip() for t in outs[0].strip('[] ').split(';')]
+    if len(model) != len(cells):
+        ctx.disagree('C11_decision', 'grid', len(model), len(cells), 'parsed a different number of verdicts')
+        return
+    dist = {}
+    for (key, _, x), mv in zip(cells, model):
+        iv = grid_outcome(key[0], x)
+        dist[iv] = dist.get(iv, 0) + 1
+        if iv != mv:
+            ctx.disagree('C11_decision', key, mv, iv, 'decision model and constructor differ')
+            # a disagreement on the grid is a concrete input: report it through the search oracle as well
+            inp = {'ctor': key[0], 'cell': list(key[1:]), 'expected': mv}
+            ctx.check('decision', inp, o_decision(inp), nontrivial_key=None)
+        else:
+            ctx.agree('C11_decision')
+    st = ctx.corr_stats['C11_decision']
+    st.update({'exhaustive': True, 'cells': len(cells), 'distribution': dist,
+               'domain': 'ctor x {ndarray,list,tuple} x 8 dtypes x %d shapes (ranks 0..4) x 6 content classes + scalar/str/None arguments'
+                         % len(G_SHAPES)})
+    ctx.say(f"[corr] C11_decision: exhaustive grid of {len(cells)} cells, {st['disagree']} disagreements, outcomes {dist}")
+
+
+# ------------------------------------------------------------------------------------------
+# search oracles
+# ------------------------------------------------------------------------------------------
+TOL = 1e-12
+REJ = (ValueError, TypeError)
+
+
+def _cell_arg(inp):
+    cell = inp['cell']
+    if len(cell) == 2:                       # scalar / str / None argument
+        return eval(cell[1], {'nan': float('nan')})
+    cont, dt, shape, content = cell
+    return grid_build(tuple(shape), dt, cont, content)
+
+
+def o_decision(inp):
+    """one cell of the decision grid on the implementation: expected verdict is the decision model's"""
+    got = grid_outcome(inp['ctor'], _cell_arg(inp))
+    if got != inp['expected']:
+        c = inp['cell']
+        cls = c[3] if len(c) == 4 else c[0]
+        kind = 'accepts' if got.startswith('Ok') else got if got.startswith('raises-') else 'rejects-with-' + got
+        return {'tag': f"{inp['ctor']}/{kind}-{cls}" + ('' if got in ('Ok', 'VErr', 'TErr') or got.startswith('raises-') else '-' + got),
+                'observed': got, 'expected': inp['expected']}
+    return None
+
+
+def _as_container(a, form):
+    a = np.asarray(a, dtype=float)
+    if form == 'list':
+        return a.tolist()
+    if form == 'tuple':
+        return tuple(a.tolist())
+    if form == 'int':
+        return a.astype(int)
+    return a
+
+
+def o_quat(inp):
+    """Quaternion(v) / QuaternionArray(rows): unit norm, same direction, real float64"""
+    import ahrs
+    rows = np.array(inp['rows'], dtype=float)
+    form = inp.get('form', 'ndarray')
+    entry = inp['entry']
+    kw = {}
+    if inp.get('order') == 'S':
+        kw['order'] = 'S'
+    if entry == 'Quaternion':
+        q = np.asarray(ahrs.Quaternion(_as_container(rows[0], form), **kw))[None, :]
+    else:
+        q = np.asarray(ahrs.QuaternionArray(_as_container(rows, form), **kw))
+    if q.dtype != np.dtype(float) or cm.bad(q) or q.shape != (rows.shape[0], 4):
+        return {'tag': f'{entry}/shape-dtype-or-nonfinite', 'observed': q}
+    nr = np.linalg.norm(q, axis=1)
+    if cm.maxabs(nr, 1.0) > TOL:
+        return {'tag': f'{entry}/not-unit', 'observed': nr, 'expected': 1.0}
+    v = rows if rows.shape[1] == 4 else np.c_[np.zeros(rows.shape[0]), rows]
+    v = v / np.max(np.abs(v), axis=1)[:, None]
+    v = v / np.linalg.norm(v, axis=1)[:, None]
+    if cm.maxabs(q, v) > TOL:
+        return {'tag': f'{entry}/not-same-direction', 'observed': q, 'expected': v}
+    return None
+
+
+def o_ops(inp):
+    """sums / differences, random attitudes, rotated arrays, averages are real unit quaternions"""
+    import ahrs
+    op = inp['op']
+
+    def unitq(q, tag, shape):
+        q = np.asarray(q)
+        if np.iscomplexobj(q):
+            return {'tag': f'{tag}/complex', 'observed': q}
+        if q.dtype != np.dtype(float) or cm.bad(q) or q.shape != shape:
+            return {'tag': f'{tag}/shape-dtype-or-nonfinite', 'observed': q}
+        nr = np.linalg.norm(q.reshape(-1, 4), axis=1)
+        if cm.maxabs(nr, 1.0) > TOL:
+            return {'tag': f'{tag}/not-unit', 'observed': nr, 'expected': 1.0}
+        return None
+    if op in ('add', 'sub'):
+        p, q = np.array(inp['p'], float), np.array(inp['q'], float)
+        a, b = ahrs.Quaternion(p), ahrs.Quaternion(q)
+        s = np.asarray(a) + np.asarray(b) if op == 'add' else np.asarray(a) - np.asarray(b)
+        if np.linalg.norm(s) < 1e-9:
+            try:
+                r = (a + b) if op == 'add' else (a - b)
+            except REJ:
+                return None
+            if np.linalg.norm(s) == 0.0:
+                return {'tag': f'{op}/wraps-vanishing', 'observed': np.asarray(r)}
+            return unitq(r, op, (4,))
+        r = (a + b) if op == 'add' else (a - b)
+        e = unitq(r, op, (4,))
+        if e:
+            return e
+        if cm.maxabs(np.asarray(r), s / np.linalg.norm(s)) > 1e-9 / max(np.linalg.norm(s), 1e-3):
+            return {'tag': f'{op}/not-same-direction', 'observed': np.asarray(r), 'expected': s / np.linalg.norm(s)}
+        return None
+    if op == 'random':
+        from ahrs.common.quaternion import random_attitudes
+        n, rep = inp['n'], inp.get('representation', 'quaternion')
+        if inp.get('u') is not None:
+            r = random_attitude_with(inp['u'], n, rep)
+        elif inp.get('via') == 'QuaternionArray':
+            r = np.asarray(ahrs.QuaternionArray(n))
+        elif inp.get('via') == 'Quaternion':
+            r = np.asarray(ahrs.Quaternion(random=True))
+        else:
+            r = random_attitudes(n, rep)
+        r = np.asarray(r)
+        if rep == 'rotmat':
+            rr = r.reshape(-1, 3, 3)
+            if r.shape != ((3, 3) if n == 1 else (n, 3, 3)) or cm.bad(r):
+                return {'tag': 'random_attitudes/rotmat-shape-or-nonfinite', 'observed': r.shape}
+            res = max(max(cm.maxabs(m @ m.T, np.eye(3)), abs(np.linalg.det(m) - 1)) for m in rr)
+            return {'tag': 'random_attitudes/rotmat-not-SO3', 'observed': res} if res > TOL else None
+        return unitq(r, 'random_attitudes', (4,) if (n == 1 and inp.get('via') != 'QuaternionArray') else (n, 4))
+    if op == 'rotate_by':
+        rows, q = np.array(inp['rows'], float), np.array(inp['q'], float)
+        Qa = ahrs.QuaternionArray(rows)
+        r = Qa.rotate_by(_as_container(q, inp.get('form', 'ndarray')))
+        e = unitq(r, 'rotate_by', (rows.shape[0], 4))
+        if e:
+            return e
+        qn = q / np.linalg.norm(q)
+        ref = np.array([cm.qmul(qn, p / np.linalg.norm(p)) for p in rows])
+        if cm.maxabs(np.asarray(r), ref) > 1e-11:
+            return {'tag': 'rotate_by/not-the-product', 'observed': np.asarray(r), 'expected': ref}
+        if inp.get('twice'):
+            r2 = Qa.rotate_by(q)
+            if cm.maxabs(np.asarray(r2), np.asarray(r)) > 0:
+                return {'tag': 'rotate_by/second-call-differs', 'observed': np.asarray(r2), 'expected': np.asarray(r)}
+        return None
+    if op == 'average':
+        rows = np.array(inp['rows'], float)
+        Qa = ahrs.QuaternionArray(rows)
+        w = inp.get('weights')
+        r = Qa.average(weights=np.array(w, float)) if w is not None else Qa.average()
+        return unitq(r, 'average', (4,))
+    raise ValueError(op)
+
+
+def _so3_res(m):
+    return max(cm.maxabs(m @ m.T, np.eye(3)), abs(np.linalg.det(m) - 1))
+
+
+def o_dcm_route(inp):
+    """every way of building a DCM yields a proper rotation matrix (float64, finite, residual <= 1e-12)"""
+    import ahrs
+    route = inp['route']
+    if route == 'matrix':
+        Mx = np.array(inp['M'], float)
+        arg = _as_container(Mx, inp.get('form', 'ndarray'))
+        r = np.asarray(ahrs.DCM(arg))
+        if r.shape != Mx.shape or r.dtype != np.dtype(float) or cm.bad(r) or cm.maxabs(r, Mx) > 0:
+            return {'tag': f"DCM(matrix)/{inp.get('form', 'ndarray')}-not-wrapped-as-given", 'observed': r, 'expected': Mx}
+        return None
+    if route == 'q':
+        q = np.array(inp['q'], float)
+        r = np.asarray(ahrs.DCM(q=_as_container(q, inp.get('form', 'ndarray'))))
+        ref = cm.Rspec(q / np.max(np.abs(q)) / np.linalg.norm(q / np.max(np.abs(q))))
+    elif route == 'xyz':
+        kw = {k: inp[k] for k in ('x', 'y', 'z') if k in inp}
+        if inp.get('degrees'):
+            kw['degrees'] = True
+        r = np.asarray(ahrs.DCM(**kw))
+        f = math.pi / 180 if inp.get('degrees') else 1.0
+        ref = _Rx(inp.get('x', 0.0) * f) @ _Ry(inp.get('y', 0.0) * f) @ _Rz(inp.get('z', 0.0) * f)
+    elif route == 'rpy':
+        a = inp['angles']
+        r = np.asarray(ahrs.DCM(rpy=_as_container(a, inp.get('form', 'list'))))
+        ref = _Rz(a[0]) @ _Ry(a[1]) @ _Rx(a[2])
+    elif route == 'euler':
+        seq, a = inp['seq'], inp['angles']
+        r = np.asarray(ahrs.DCM(euler=(seq, list(a))))
+        ref = np.eye(3)
+        for ch, t in zip(seq, a):
+            ref = ref @ {'x': _Rx, 'y': _Ry, 'z': _Rz}[ch.lower()](t)
+    elif route == 'axang':
+        ax, t = np.array(inp['axis'], float), inp['angle']
+        r = np.asarray(ahrs.DCM(axang=(_as_container(ax, inp.get('form', 'ndarray')), t)))
+        k = ax / np.max(np.abs(ax)); k = k / np.linalg.norm(k)
+        Kx = np.array([[0, -k[2], k[1]], [k[2], 0, -k[0]], [-k[1], k[0], 0]])
+        ref = np.eye(3) + math.sin(t) * Kx + (1 - math.cos(t)) * Kx @ Kx
+    else:
+        raise ValueError(route)
+    if r.shape != (3, 3) or r.dtype != np.dtype(float) or cm.bad(r):
+        return {'tag': f'DCM({route}=)/shape-dtype-or-nonfinite', 'observed': r}
+    if _so3_res(r) > TOL:
+        return {'tag': f'DCM({route}=)/not-SO3', 'observed': _so3_res(r), 'expected': f'<= {TOL}'}
+    scale = 1.0 if route not in ('xyz', 'rpy', 'euler') else max(1.0, max(abs(float(x)) for x in (inp.get('angles') or [inp.get(k, 0.0) for k in 'xyz'])))
+    if cm.maxabs(r, ref) > 1e-11 * scale:
+        return {'tag': f'DCM({route}=)/not-the-rotation-asked-for', 'observed': r, 'expected': ref}
+    return None
+
+
+def _Rx(t):
+    c, s = math.cos(t), math.sin(t)
+    return np.array([[1, 0, 0], [0, c, -s], [0, s, c]])
+
+
+def _Ry(t):
+    c, s = math.cos(t), math.sin(t)
+    return np.array([[c, 0, s], [0, 1, 0], [-s, 0, c]])
+
+
+def _Rz(t):
+    c, s = math.cos(t), math.sin(t)
+    return np.array([[c, -s, 0], [s, c, 0], [0, 0, 1]])
+
+
+def o_so3_boundary(inp):
+    """3x3 matrices within 1e-12 of SO(3) are accepted (and converted to unit quaternions), matrices farther than
+    1e-4 are rejected with ValueError/TypeError, by DCM(M), Quaternion(dcm=M) and QuaternionArray(DCM=[M])"""
+    import ahrs
+    Mx = np.array([[float(x) for x in r] for r in inp['M']], float)
+    entry, expect = inp['entry'], inp['expect']
+    call = {'DCM': lambda: np.asarray(ahrs.DCM(Mx.copy())),
+            'Quaternion(dcm=)': lambda: np.asarray(ahrs.Quaternion(dcm=Mx.copy())),
+            'QuaternionArray(DCM=)': lambda: np.asarray(ahrs.QuaternionArray(DCM=np.array([Mx, Mx])))}[entry]
+    try:
+        with np.errstate(all='ignore'):
+            r = call()
+    except REJ as e:
+        if expect == 'accept':
+            return {'tag': f'{entry}/rejects-near-SO3', 'observed': f'{type(e).__name__}: {e}', 'expected': 'accepted'}
+        return None
+    if expect == 'reject':
+        return {'tag': f"{entry}/accepts-non-SO3", 'observed': r, 'expected': 'ValueError/TypeError',
+                'note': inp.get('family', '')}
+    if entry == 'DCM':
+        ok = r.shape == (3, 3) and not cm.bad(r) and cm.maxabs(r, Mx) == 0
+    else:
+        ok = not cm.bad(r) and cm.maxabs(np.linalg.norm(r.reshape(-1, 4), axis=1), 1.0) <= TOL
+        if ok:
+            ok = all(cm.maxabs(cm.Rspec(q), Mx) <= 1e-6 for q in r.reshape(-1, 4))
+    return None if ok else {'tag': f'{entry}/accepted-but-wrong-result', 'observed': r, 'expected': Mx}
+
+
+ORACLES = {'quat': o_quat, 'ops': o_ops, 'dcm_route': o_dcm_route, 'so3_boundary': o_so3_boundary, 'decision': o_decision}
+
+NS = (1, 2, 3, 4, 5, 7)
+
+
+def search(ctx, scale):
+    rng = ctx.rng
+    n = 40 * scale
+    # ---- constructors on finite non-zero vectors, norms 1e-100 .. 1e100, all container forms, N in NS
+    v4, v3 = vectors(rng, n, 4), vectors(rng, n, 3)
+    forms = ('ndarray', 'list', 'tuple')
+    for i, ((r4, a), (r3, b)) in enumerate(zip(v4, v3)):
+        for entry in ('Quaternion', 'QuaternionArray'):
+            for rows, reg in ((a, r4), (b, r3)):
+                inp = {'entry': entry, 'rows': [rows.tolist()], 'form': forms[i % 3], 'region': reg}
+                if i % 4 == 1:
+                    inp['order'] = 'S'
+                ctx.check('quat', inp, cm_call(o_quat, inp), nontrivial_key=(entry, len(rows), reg, tuple(np.round(rows / np.linalg.norm(rows), 6))))
+        N = NS[i % len(NS)]
+        for dim, pool in ((4, v4), (3, v3)):
+            rows = [pool[(i * 3 + k) % len(pool)][1].tolist() for k in range(N)]
+            inp = {'entry': 'QuaternionArray', 'rows': rows, 'form': forms[(i + 1) % 3]}
+            ctx.check('quat', inp, cm_call(o_quat, inp), nontrivial_key=('QA', N, dim, i))
+    # exactly representable integer inputs in integer dtype / lists
+    for N in NS:
+        rows = [[(k + j) % 5 - 2 if (k + j) % 5 != 2 else 3 for j in range(4)] for k in range(N)]
+        for form in ('int', 'list'):
+            inp = {'entry': 'QuaternionArray', 'rows': rows, 'form': form}
+            ctx.check('quat', inp, cm_call(o_quat, inp), nontrivial_key=('QA-int', N, form))
+        inp = {'entry': 'Quaternion', 'rows': [rows[0]], 'form': 'int'}
+        ctx.check('quat', inp, cm_call(o_quat, inp), nontrivial_key=('Q-int', N))
+    # ---- sums, differences
+    mod = [v for _, v in v4 if 1e-100 <= np.linalg.norm(v) <= 1e100]
+    for i, p in enumerate(mod):
+        q = mod[(7 * i + 2) % len(mod)]
+        for op in ('add', 'sub'):
+            inp = {'op': op, 'p': p.tolist(), 'q': q.tolist()}
+            ctx.check('ops', inp, cm_call(o_ops, inp, op), nontrivial_key=(op, i))
+        if i < 6:
+            for op, qq in (('sub', p), ('add', -p), ('sub', p * 3.0), ('add', p * (1 + 1e-9))):
+                inp = {'op': op, 'p': p.tolist(), 'q': qq.tolist()}
+                ctx.check('ops', inp, cm_call(o_ops, inp, op), nontrivial_key=(op, 'cancel', i))
+    # ---- random attitudes: bound draws (corners of the cube included), free draws, every N, both representations
+    us = [[0, 0, 0], [1, 0, 0], [0, 1, 1], [1, 1, 1], [0.5, 0.5, 0.5], [1e-300, 0.25, 0.75], [1 - 2 ** -53, 0.1, 0.2]]
+    us += [rng.uniform(0, 1, 3).tolist() for _ in range(n)]
+    for i, u in enumerate(us):
+        for rep in ('quaternion', 'rotmat'):
+            inp = {'op': 'random', 'n': NS[i % len(NS)], 'u': u, 'representation': rep}
+            ctx.check('ops', inp, cm_call(o_ops, inp, 'random_attitudes'), nontrivial_key=('random', rep, i))
+    for N in NS:
+        for via in (None, 'QuaternionArray'):
+            inp = {'op': 'random', 'n': N, 'via': via}
+            ctx.check('ops', inp, cm_call(o_ops, inp, 'random_attitudes'), nontrivial_key=('random-free', N, via))
+    inp = {'op': 'random', 'n': 1, 'via': 'Quaternion'}
+    ctx.check('ops', inp, cm_call(o_ops, inp, 'random_attitudes'), nontrivial_key=('random-free', 'Quaternion'))
+    # ---- rotate_by, average over N rows
+    for i in range(n):
+        N = NS[i % len(NS)]
+        rows = [(cm.rand_unit_quat(rng) * 10.0 ** rng.uniform(-3, 3)).tolist() for _ in range(N)]
+        q = cm.rand_unit_quat(rng) * 10.0 ** rng.uniform(-50, 50)
+        inp = {'op': 'rotate_by', 'rows': rows, 'q': q.tolist(), 'form': forms[i % 3], 'twice': i % 2 == 0}
+        ctx.check('ops', inp, cm_call(o_ops, inp, 'rotate_by'), nontrivial_key=('rotate_by', N, i))
+        base = cm.rand_unit_quat(rng)
+        rows = [(base + 0.1 * rng.standard_normal(4)).tolist() for _ in range(N)]
+        inp = {'op': 'average', 'rows': rows}
+        if i % 3 == 0:
+            inp['weights'] = rng.uniform(0.5, 2.0, N).tolist()
+        ctx.check('ops', inp, cm_call(o_ops, inp, 'average'), nontrivial_key=('average', N, i))
+    # ---- DCM routes
+    qs = cm.quats(rng, n)
+    for i, (reg, q) in enumerate(qs):
+        R = cm.Rspec(q)
+        for form in forms + ('int',):
+            Mx = R if form != 'int' else np.round(cm.Rspec(np.array([[1, 0, 0, 0], [0, 1, 0, 0], [.5, .5, .5, .5], [0, 0, 1, 0]][i % 4], float)))
+            inp = {'route': 'matrix', 'M': Mx.tolist(), 'form': form, 'region': reg}
+            ctx.check('dcm_route', inp, cm_call(o_dcm_route, inp, f'DCM(matrix)/{form}'), nontrivial_key=('matrix', form, i))
+        inp = {'route': 'q', 'q': (q * 10.0 ** rng.uniform(-100, 100)).tolist(), 'form': forms[i % 3]}
+        ctx.check('dcm_route', inp, cm_call(o_dcm_route, inp, 'DCM(q=)'), nontrivial_key=('q', i))
+    seqs = ['z', 'x', 'y', 'zxz', 'xyz', 'ZYX', 'yxy', 'zyzx', 'xxyyzz', 'Xz']
+    for i, (a, b, c) in enumerate(angle_sets(rng, n)):
+        inp = {'route': 'xyz', 'x': a, 'y': b, 'z': c, 'degrees': i % 3 == 1}
+        if i % 5 == 4:
+            del inp['y']
+        ctx.check('dcm_route', inp, cm_call(o_dcm_route, inp, 'DCM(xyz=)'), nontrivial_key=('xyz', i))
+        inp = {'route': 'rpy', 'angles': [a, b, c], 'form': ('list', 'ndarray', 'tuple')[i % 3]}
+        ctx.check('dcm_route', inp, cm_call(o_dcm_route, inp, 'DCM(rpy=)'), nontrivial_key=('rpy', i))
+        seq = seqs[i % len(seqs)]
+        angs = ([a, b, c] * 2)[:len(seq)]
+        inp = {'route': 'euler', 'seq': seq, 'angles': angs}
+        ctx.check('dcm_route', inp, cm_call(o_dcm_route, inp, 'DCM(euler=)'), nontrivial_key=('euler', seq, i))
+        ax = rng.standard_normal(3) * 10.0 ** rng.uniform(-100, 100) if i % 4 else np.eye(3)[i % 3] * (3.0 if i % 8 else 1.0)
+        inp = {'route': 'axang', 'axis': ax.tolist(), 'angle': a, 'form': forms[i % 3]}
+        ctx.check('dcm_route', inp, cm_call(o_dcm_route, inp, 'DCM(axang=)'), nontrivial_key=('axang', i))
+    # ---- the acceptance boundary
+    fams = ('reflection', 'scaled', 'shear', 'nan', 'generic', 'neg')
+    for i, (reg, q) in enumerate(qs):
+        R = cm.Rspec(q)
+        near = R + rng.uniform(-1e-12, 1e-12, (3, 3))
+        fam = fams[i % len(fams)]
+        eps = rng.choice([-1, 1]) * 10.0 ** rng.uniform(-3.9, 0.5)
+        if fam == 'reflection':
+            far = R @ np.diag([1.0, -1.0, 1.0][i % 3:] + [1.0, -1.0, 1.0][:i % 3]) if i % 2 else R @ np.array([[0, 1, 0], [1, 0, 0], [0, 0, 1.0]])
+        elif fam == 'scaled':
+            far = (1 + eps) * R
+        elif fam == 'shear':
+            S = np.eye(3); S[0, 1] = eps; far = R @ S
+        elif fam == 'nan':
+            far = R.copy(); far[i % 3, (i // 3) % 3] = np.nan
+        elif fam == 'neg':
+            far = -R
+        else:
+            far = R + rng.standard_normal((3, 3)) * 10.0 ** rng.uniform(-3.3, 0)
+            if np.linalg.norm(far - nearest_rotation(far)) <= 1.2e-4:
+                far = R * 1.01
+        for entry in ('DCM', 'Quaternion(dcm=)', 'QuaternionArray(DCM=)'):
+            inp = {'entry': entry, 'M': near.tolist(), 'expect': 'accept', 'region': reg}
+            ctx.check('so3_boundary', inp, cm_call(o_so3_boundary, inp, entry), nontrivial_key=(entry, 'near', i))
+            inp = {'entry': entry, 'M': [[repr(x) if x != x else x for x in r] for r in far.tolist()], 'expect': 'reject', 'family': fam}
+            ctx.check('so3_boundary', inp, cm_call(o_so3_boundary, inp, entry), nontrivial_key=(entry, fam, i))
+    # ---- rejections of what cannot be a rotation (a sample of the decision grid goes through the oracle as well)
+    cells = grid_cells()
+    pick = [c for c in cells if c[0][-1] in ('zero', 'zerorow', 'nan', 'reflect', 'scaled') or len(c[0]) == 3]
+    for c in pick[::max(1, len(pick) // (150 * scale))]:
+        key = c[0]
+        exp = 'VErr' if len(key) == 5 else None
+        if exp is None:
+            continue
+        x = c[2]
+        got = grid_outcome(key[0], x)
+        if got in ('VErr', 'TErr') or (key[0] == 'QArr' and key[-1] in ('reflect', 'scaled')) or (np.size(np.asarray(x, dtype=object)) == 0):
+            exp = got
+        inp = {'ctor': key[0], 'cell': list(key[1:]), 'expected': exp}
+        ctx.check('decision', inp, cm_call(o_decision, inp, key[0]), nontrivial_key=('cell',) + tuple(str(k) for k in key))
+    ctx.samples.append({'kind': 'search', 'oracle': 'quat', 'input': {'entry': 'Quaternion', 'rows': [v4[20][1].tolist()]}})
+    ctx.samples.append({'kind': 'search', 'oracle': 'so3_boundary', 'input': {'entry': 'DCM', 'M': cm.Rspec(qs[9][1]).tolist(), 'expect': 'accept'}})
